@@ -423,8 +423,8 @@ func famC09(g *Gen, o *Out, n int, thorough bool) {
 					p += len(sectionOf(b))
 				}
 			}
-			for _, st := range starts {
-				if !thorough && g.pick(2) == 0 {
+			for si, st := range starts {
+				if !thorough && g.pick(2) == 0 && c >= 4 {
 					continue
 				}
 				_, n := uvarintAt(arch, st)
@@ -435,14 +435,23 @@ func famC09(g *Gen, o *Out, n int, thorough bool) {
 				// a length whose int64 value, minus a 36-byte CID, rewinds exactly onto this section
 				neg := func(k int) uint64 { return ^uint64(k) + 1 }
 				vals = append(vals, neg(10), neg(n), neg(n+1), neg(36))
-				v := vals[g.pick(len(vals))]
-				enc := make([]byte, 0, 10)
-				for v >= 0x80 {
-					enc = append(enc, byte(v)|0x80)
-					v >>= 7
+				// plausible lies: just over the default limits, a quarter of a gigabyte, shorter than the CID
+				// that follows, one off the true length
+				tl, _ := uvarintAt(arch, st)
+				vals = append(vals, 8<<20+1, 9<<20, 32<<20+1, 1<<28, 1<<31, 10, 31, 35, 36, tl+1, tl-1)
+				pick := []uint64{vals[g.pick(len(vals))]}
+				if c < 4 && (si == 1 || si == len(starts)-1) {
+					pick = vals // the fixed corpus archives get every value, at the first and the last section
 				}
-				enc = append(enc, byte(v))
-				inputs = append(inputs, append(append(append([]byte{}, arch[:st]...), enc...), arch[st+n:]...))
+				for _, v := range pick {
+					enc := make([]byte, 0, 10)
+					for v >= 0x80 {
+						enc = append(enc, byte(v)|0x80)
+						v >>= 7
+					}
+					enc = append(enc, byte(v))
+					inputs = append(inputs, append(append(append([]byte{}, arch[:st]...), enc...), arch[st+n:]...))
+				}
 			}
 		}
 		for _, in := range inputs {
